@@ -160,6 +160,12 @@ def run_property(pid, tier, seed, verbose=False):
     else:
       undecided_notes.append(f'{o.name}: refuted in the model but not an obligation of the '
                              'pinned tree and no failing native input found')
+  # vacuity guard: an obligation that is only ever checked under contradictory hypotheses proves nothing
+  n_names, vacuous = solve.reachability(obs)
+  p.reach = {'named_obligations': n_names, 'unreachable': vacuous}
+  for n in vacuous:
+    undecided_notes.append(f'{n}: every instance has contradictory hypotheses (vacuous): a precondition, invariant or '
+                           'assumption excludes everything')
   # solver gave no verdict: a violation needs a replayed input, so search the
   # obligation's function natively (bounded); a failing input is a violation,
   # none leaves the run undecided
@@ -376,6 +382,7 @@ def write_evidence(p, path, t0, violations, unknown, known_lines=(), undecided=N
           'bounded_standins': [
               {k: b.get(k) for k in ('name', 'bound', 'result', 'why_bounded')}
               for b in getattr(p, 'native_checks', [])],
+          'reachability': getattr(p, 'reach', None),
           'not_covered': p.not_covered,
           'notes': p.notes + list(undecided_notes) + ([undecided] if undecided else []),
       },
